@@ -3,8 +3,10 @@
 #![allow(dead_code, unused_imports, static_mut_refs)]
 extern crate alloc;
 
+/// signature length of public tokens (see l2::signed)
+pub const PUBLIC_SIG_LEN: usize = 96;
 /// see l2::new_secret
-pub const SECRET_BY_DECODE: Option<usize> = Some(48);
+pub const SECRET_SOURCE: u8 = 2;
 #[path = "../common/l2.rs"]
 pub mod l2;
 #[macro_use]
@@ -15,6 +17,7 @@ pub mod inst;
 mod proofs {
     use super::l2::*;
     use paseto_core::key::HasKey;
+    use paseto_core::PasetoError;
     use paseto_core::paserk::PkeSealingVersion;
     use paseto_core::version::{Local, Public, SealingVersion, Secret, UnsealingVersion};
     use paseto_v3_aws_lc::core::V3 as V;
@@ -56,6 +59,55 @@ mod proofs {
     h!(pw_rng_fail_closed_at0, pw_rng_fail_closed::<V, 0>(".local-pw.", arm, draws));
     h!(pw_rng_fail_closed_at1, pw_rng_fail_closed::<V, 1>(".local-pw.", arm, draws));
 
+    /// the ledger over signing only (no verification): key parse, public-key derivation, signing,
+    /// signature serialisation, clone, encode
+    h!(c04_ffi_ledger_sign, {
+        let a0 = aws_lc_sys::model::live_objects();
+        {
+            let sk = match crate::l2::new_secret::<V>() {
+                Some(k) => k,
+                None => return,
+            };
+            let pk = <V as SealingVersion<Public>>::unsealing_key(&sk);
+            let msg = Bytes::any(2);
+            let r = seal_like_lib::<V, Public>(&sk, msg.s(), b"f", b"");
+            core::mem::forget(r);
+            let sk2 = sk.clone();
+            let pk2 = pk.clone();
+            let e = <V as HasKey<Secret>>::encode(&sk2);
+            let e2 = <V as HasKey<Public>>::encode(&pk2);
+            core::mem::forget((e, e2));
+        }
+        assert!(aws_lc_sys::model::live_objects() == a0, "an aws-lc object was leaked (or freed twice)");
+        kani::cover!(true);
+    });
+    /// the ledger over key parsing of arbitrary bytes (accept and reject paths)
+    h!(c04_ffi_ledger_key_parse, {
+        let a0 = aws_lc_sys::model::live_objects();
+        {
+            let b: [u8; 48] = kani::any();
+            let k = <V as HasKey<Secret>>::decode(&b);
+            kani::cover!(k.is_ok());
+            kani::cover!(k.is_err());
+            let c: [u8; 49] = kani::any();
+            let p = <V as HasKey<Public>>::decode(&c);
+            kani::cover!(p.is_ok());
+            kani::cover!(p.is_err());
+            drop_keys(k, p);
+        }
+        assert!(aws_lc_sys::model::live_objects() == a0, "an aws-lc object was leaked (or freed twice)");
+    });
+    fn drop_keys(k: Result<<V as HasKey<Secret>>::Key, PasetoError>, p: Result<<V as HasKey<Public>>::Key, PasetoError>) {
+        // drop the keys (runs the FFI frees) but not the errors (PasetoError's drop glue is irrelevant here)
+        match k {
+            Ok(k) => drop(k),
+            Err(e) => core::mem::forget(e),
+        }
+        match p {
+            Ok(p) => drop(p),
+            Err(e) => core::mem::forget(e),
+        }
+    }
     /// C04: the FFI wrappers free every object exactly once and never use one after free, on the
     /// success path and on every error path of key parsing, signing, verification and display
     h!(c04_ffi_ledger_sign_verify, {
